@@ -349,8 +349,8 @@ func init() {
 			emit("0 5 612f62 0 1 0 0 0102")
 			emit("0 65535 612f62 0 2 1 0 0102") // counter wraps: id 1
 			emit("0 65534 612f62 0 1 0 1 -")
-			emit("0 9 612f62 77 1 0 0 01")   // caller-provided id kept
-			emit("4 9 612f62 0 1 0 0 010203") // below max
+			emit("0 9 612f62 77 1 0 0 01")      // caller-provided id kept
+			emit("4 9 612f62 0 1 0 0 010203")   // below max
 			emit("4 9 612f62 0 1 0 0 01020304") // at max: rejected
 			emit("0 9 612f62 0 3 0 0 01")       // QoS 3 rejected
 			for i := 0; i < n; i++ {
